@@ -58,6 +58,9 @@ CHECKS = {
  "C16": dict(cat="other", engine="mirsym", tech="bounded symbolic execution of the MIR of regex::Regex::new/get_fixed_prefix/is_partial_match over byte-list strings (regex = fragment classes with solver-chosen bytes, directory = symbolic characters), z3 validity against a reference matcher written as an SMT dynamic programme; native replay with the real Regex",
              text="Pruning half: for every anchored regex of <= 3 fragments from the menu the glob translator emits (plain / escaped / two-byte literal, '/', [^/]*, .*, [^/], (a|b), (a)?, [ab], plus c? and c* of raw regexes; bytes chosen by the solver) and every directory string of <= 4 symbolic characters ending in '/', z3 decides on the symbolic execution of Regex::new + get_fixed_prefix + is_partial_match that a directory which is a prefix of a matched string is never rejected. Counterexamples are grouped by call site (comparison vs. prefix computation) and replayed with the real Regex. The matching half (glob -> regex by nom combinators, the regex engine) is not encodable and outside the claim.",
              note="Trusted: MIR front end + string summaries, the reference semantics of the regex fragments (validated natively on the replayed counterexamples), z3. Two defects found on the unchanged tree are pinned by an existing unit test and recorded as known findings.", ref="DESIGN.md §3 C16"),
+ "C14": dict(cat="other", engine="mirsym", tech="bounded symbolic execution of rustc MIR (write_report_at statistics, FileSubGroup::group with an insertion-ordered-map model against a declarative reference, redundant/missing counts, sort keys, the four writers) with z3 validity queries; CLI replay recomputing the header from the body",
+             text="z3 decides on the symbolic execution of write_report_at (2 symbolic groups) that every header statistic is the sum over the very list handed to the writer; on FileSubGroup::group (<= 3 files x <= 2 roots, symbolic ids and prefix relation, IndexMap modelled by its contract) that the sub-groups are the documented ones, and on redundant_count / missing_count / matches(_strictly) composed with it that they equal their documented definitions; sort_by_path keeps the files of one isolate root together in root order; the final group order is by decreasing (length, hash); the text, fdupes, CSV and JSON writers list the same files in the same order and the text header count equals the number of path lines. Kernel-level: csv / serde_json output and the parallel sort are trusted.",
+             note="Trusted: MIR front end + list / map / Option summaries, z3, std sorts, csv and serde_json. Counterexamples are replayed through the CLI (replay/c14_consistency.py: 80 runs over formats x options, header recomputed from the body).", ref="DESIGN.md §3 C14"),
 }
 
 NOT_YET = {}
